@@ -18,7 +18,7 @@ def run(tier, seed, prop=PROP, profile="core"):
     n, depth = (2500, 5) if tier == "quick" else (40000, 6)
     stimuli = []
     for k, (cnt, dep) in enumerate(((n, depth), (n // 5, depth + 1))):
-        p = subprocess.run([vdrive, "c01", "gen", str(seed * 10 + k), str(cnt), str(dep), profile], capture_output=True, timeout=900)
+        p = subprocess.run([vdrive, "c01", "gen", str(seed * 10 + k), str(cnt), str(dep), profile], capture_output=True, cwd=common.scratch(), timeout=900)
         if p.returncode != 0:
             raise common.Infra("c01 gen failed: " + p.stderr.decode(errors="replace")[-1000:])
         for l in p.stdout.decode().splitlines():
